@@ -106,28 +106,38 @@ func (d *doublyConnectedEdgeList) assignFaces() {
 	}
 
 	// Populate inSet for faces that did not have edges from their respective
-	// input geometries.
-	forEachOperand(func(operand operand) {
-		visited := make(map[*faceRecord]bool)
-		var dfs func(*faceRecord)
-		dfs = func(f *faceRecord) {
-			if visited[f] {
-				return
-			}
-			visited[f] = true
+	// input geometries. A face is part of an operand iff it is inside at least
+	// one of the operand's areal members. The members of a single operand can
+	// overlap (GeometryCollections), so a face in the hole of one member may
+	// still be covered by another member. The number of members covering each
+	// face is therefore counted: the unbounded face is covered by none, and
+	// crossing an edge leaves the members that have their interior on the near
+	// side and enters those that have it on the far side.
+	if unbounded := d.unboundedFace(); unbounded != nil {
+		depth := map[*faceRecord][2]int{unbounded: {}}
+		queue := []*faceRecord{unbounded}
+		for len(queue) > 0 {
+			f := queue[0]
+			queue = queue[1:]
 			forEachEdgeInCycle(f.cycle, func(e *halfEdgeRecord) {
-				if !e.srcFace[operand] {
-					e.twin.incident.inSet[operand] = true
-					dfs(e.twin.incident)
+				adj := e.twin.incident
+				if _, ok := depth[adj]; ok {
+					return
 				}
+				adjDepth := depth[f]
+				forEachOperand(func(operand operand) {
+					adjDepth[operand] += e.twin.srcFaceCount[operand] - e.srcFaceCount[operand]
+				})
+				depth[adj] = adjDepth
+				queue = append(queue, adj)
 			})
 		}
-		for _, f := range d.faces {
-			if f.inSet[operand] {
-				dfs(f)
-			}
+		for f, faceDepth := range depth {
+			forEachOperand(func(operand operand) {
+				f.inSet[operand] = faceDepth[operand] > 0
+			})
 		}
-	})
+	}
 
 	// If we couldn't find any cycles, then we wouldn't have constructed any
 	// faces. This happens in the case where there are only point geometries.
@@ -138,6 +148,28 @@ func (d *doublyConnectedEdgeList) assignFaces() {
 			inSet: [2]bool{},
 		})
 	}
+}
+
+// unboundedFace finds the face that surrounds everything else: it is the only
+// face whose cycle doesn't wind counter-clockwise around a positive area. Nil
+// is returned if there are no faces.
+func (d *doublyConnectedEdgeList) unboundedFace() *faceRecord {
+	var unbounded *faceRecord
+	var minArea float64
+	for _, f := range d.faces {
+		var twiceArea float64
+		forEachEdgeInCycle(f.cycle, func(e *halfEdgeRecord) {
+			n := e.seq.Length()
+			for i := 0; i+1 < n; i++ {
+				twiceArea += e.seq.GetXY(i).Cross(e.seq.GetXY(i + 1))
+			}
+		})
+		if unbounded == nil || twiceArea < minArea {
+			unbounded = f
+			minArea = twiceArea
+		}
+	}
+	return unbounded
 }
 
 // adjacentFaces finds all of the faces that adjacent to f.
